@@ -97,8 +97,11 @@ def check_formula_shape(kind, k, n, m, nvars, clauses, pbits, what):
 
 
 def _call_library(case, extra_kwargs=None):
-    """Calls the generator.  Returns ('rejected', None, labels) or
-    ('ok', F, labels); raises Violation when acceptance/rejection is wrong."""
+    """Calls the generator with the global generator seeded from the case.
+
+    Returns (status, F, labels, planted_bits, max): status is 'rejected'
+    (ValueError, expected) or 'ok'; raises Violation when acceptance or
+    rejection disagrees with 'k > n or m > max'."""
     kind, k, n, m = case['kind'], case['k'], case['n'], case['m']
     planted = [list(a) for a in case.get('planted', [])]
     pbits = tuple(rr.assignment_bits(n, a) for a in planted)
@@ -294,14 +297,14 @@ def _large_ks(kind, n):
     """Widths tried for n >= 7; sizes are bounded by construction (<= 8000
     clauses for k-CNF, <= 25000 clauses in the encoding of the k-XOR)."""
     ks = [0, 1, 2, 3, 4, n]
-    if kind == 'xor' or n <= 10:
+    if kind == 'xor' or n <= 9:
         ks.append(n - 1)
     return ks
 
 
 def enum_large(tier):
     if tier == 'quick':
-        ns, cfgs, nseeds = [7, 10, 12], [0, 4], 1
+        ns, cfgs, nseeds = [7, 9, 12], [0, 4], 1
     else:
         ns, cfgs, nseeds = list(range(7, 13)), [0, 1, 3, 4, 5], 4
     for kind in KINDS:
@@ -368,8 +371,7 @@ def run_seed(case):
             raise Violation("{}: two calls with the same seed give different formulas "
                             "(global generator seeded with {} resp. {} before the call): {} vs {}".format(
                                 _describe(case), case['pre'][0], case['pre'][1], clauses[:12], other[1][:12]))
-    mx_free = m >= 1 and mx >= 2
-    if mx_free:
+    if m >= 1 and mx >= 2:
         labels.append('several-outcomes-possible')
     return Outcome(labels=labels, nontrivial=k >= 1 and m >= 1 and mx >= 2)
 
@@ -568,12 +570,12 @@ GRID_LABELS = ['cnf', 'xor', 'm=max', 'm=max+1-rejected', 'k>n-rejected', 'k=n',
 
 SUBCHECKS = [
     SubCheck('grid', run_library, strategy=strat_grid, enumerate_cases=enum_grid,
-             quick=3000, thorough=150000,
+             quick=3000, thorough=250000,
              rule="RandomKCNF and RandomKXOR on the complete grid k 0..4 x n 0..6 x m 0..max+2 (max = brute-force count of the clauses/parities compatible with the planted set) x 7 (thorough 9) planted configurations of 0..3 total assignments (equal, complementary, random) x 2 (thorough 20) states of the global generator; plus Hypothesis cases k 0..5, n 0..8, m biased to 0,1,max-1..max+2; oracle: ValueError iff k>n or m>max, else n variables, m distinct clauses (parities) on k distinct variables, all satisfied by every planted assignment, XOR: order-independent decoding into complete sign-pattern blocks and truth table == GF(2) solution set; non-trivial: k>=1, m>=1, k<=n",
              required_labels=GRID_LABELS),
     SubCheck('large', run_library, strategy=strat_large, enumerate_cases=enum_large,
-             quick=60, thorough=3000,
-             rule="n 7..12, k in {0..4, n-1, n}, m in max-2..max+2, planted sets of 0..3 assignments; enumerated slice (quick: n in 7,10,12; thorough: n 7..12, 5 planted configurations, 4 generator states) plus Hypothesis; same oracle as grid; non-trivial: k>=1, m>=1",
+             quick=60, thorough=6000,
+             rule="n 7..12, k in {0..4, n-1, n}, m in max-2..max+2, planted sets of 0..3 assignments; enumerated slice (quick: n in 7,9,12; thorough: n 7..12, 5 planted configurations, 4 generator states) plus Hypothesis; same oracle as grid; non-trivial: k>=1, m>=1",
              required_labels=['cnf', 'xor', 'm=max', 'm=max+1-rejected', 'dense-path', 'sparse-path',
                               'cnf-dense-path-unplanted', 'xor-dense-path-unplanted',
                               'cnf-sparse-path-unplanted', 'xor-sparse-path-unplanted',
@@ -583,7 +585,7 @@ SUBCHECKS = [
              rule="library call with seed= (ints including 0 and negative, strings) executed twice from two different states of the global generator; oracle: shape as in grid and identical clause lists; non-trivial: k>=1, m>=1 and at least two available clauses (so that a forgotten reseed can show)",
              required_labels=['cnf', 'xor', 'seed=0', 'seed-int', 'seed-str', 'several-outcomes-possible',
                               'planted>=2', 'rejected']),
-    SubCheck('cli', run_cli, strategy=strat_cli, enumerate_cases=enum_cli, quick=700, thorough=20000,
+    SubCheck('cli', run_cli, strategy=strat_cli, enumerate_cases=enum_cli, quick=600, thorough=30000,
              rule="cnfgen [-q] [--seed|-S s] randkcnf|randkxor [-p|--plant at any position] k n m run in-process through cli(mode=string|formula|output) and main(); k 0..5, n 0..8, m biased to the boundary; oracle: CLIError / non-zero exit with empty stdout iff k>n or m>max(one planted assignment if -p), else the DIMACS output (own reader) has the shape of grid, is satisfiable with -p, and is reproduced by a second run with the same non-zero seed; k=0/n=0 gray; non-trivial: k>=1, m>=1, formula produced or rejected at the boundary",
              required_labels=['cnf', 'xor', 'plant', 'noplant', 'seed', 'noseed', 'seed=0', 'string', 'formula',
                               'output', 'main', 'm=max', 'm=max+1-rejected', 'k>n-rejected', 'plant-satisfiable',
